@@ -44,7 +44,7 @@ def jobs(tier):
                 kind='control', expect='fail', unwind=6, timeout=300, cbmc_args=A)]
 
 
-LEVEL = 'bounded'
+LEVEL = 'other'      # bounded stand-ins only: never reported as proof
 TRUSTED = ['tools/cxx2c.py lowering']
 ASSUMPTIONS = [
     'value objects, unique_ptr, std::vector, shared_ptr/make_shared are modelled (props/c12/copy_model.h); value::clone() (virtual) is modelled as "a new object with equal contents": clone() of the other value classes (value_closure, value_die, ...) is NOT covered',
